@@ -57,26 +57,21 @@ theorem round3_sid (P : Params G) (st : GarblerSession) (a : Bytes) (req : Round
       · cases h
       · cases h
 
-/-! ## crash conditions -/
+/-! ## no round crashes -/
 
-theorem decryptCO_noPanic (K : Crypto G) (st : EvaluatorSession) (cts : List (Label × Label))
-    (h : (K.ofPt ⟨st.ax, st.ay⟩).isSome) : NoPanic (decryptCO K st cts) := by
+theorem decryptCO_noPanic (K : Crypto G) (st : EvaluatorSession) (cts : List (Label × Label)) :
+    NoPanic (decryptCO K st cts) := by
   unfold decryptCO
-  simp only
-  apply NoPanic.ite; · simp
-  apply NoPanic.ite; · simp
-  cases hA : K.ofPt ⟨st.ax, st.ay⟩ with
-  | none => rw [hA] at h; simp at h
-  | some A => simp
+  cases K.ofPt ⟨st.ax, st.ay⟩ with
+  | none => simp
+  | some A => simp only; apply NoPanic.ite <;> simp
 
-/-- `EvaluatorRound4` never crashes when the stored sender point is a curve
-point. -/
-theorem round4_noPanic (P : Params G) (st : EvaluatorSession) (msg : Round3)
-    (h : (P.crypto.ofPt ⟨st.ax, st.ay⟩).isSome) : NoPanic (round4 P st msg) := by
+/-- `EvaluatorRound4` never crashes, whatever state and message it is given. -/
+theorem round4_noPanic (P : Params G) (st : EvaluatorSession) (msg : Round3) : NoPanic (round4 P st msg) := by
   unfold round4
   apply NoPanic.ite; · simp
   apply NoPanic.ite; · simp
-  have := decryptCO_noPanic P.crypto st msg.cts h
+  have := decryptCO_noPanic P.crypto st msg.cts
   cases hd : decryptCO P.crypto st msg.cts with
   | panic => exact absurd hd this
   | error => simp
@@ -91,58 +86,57 @@ theorem round4_noPanic (P : Params G) (st : EvaluatorSession) (msg : Round3)
       | none => simp
       | some bits => simp only; apply NoPanic.ite <;> simp
 
-/-- ... and it DOES crash on a state whose sender point is not on the curve
-(any well-formed-looking state with 256 scalars and bits and a round-3 message
-of the same session with 256 ciphertexts). -/
-theorem round4_panics (P : Params G) (st : EvaluatorSession) (msg : Round3)
-    (hA : P.crypto.ofPt ⟨st.ax, st.ay⟩ = none) (hs : st.scalars.length = nBits) (hb : st.bits.length = nBits)
-    (hc : msg.cts.length = nBits) (hsid : msg.sid = st.sid) : round4 P st msg = .panic := by
+/-- A stored sender point that is not on the curve is an error of round 4. -/
+theorem round4_offcurve_error (P : Params G) (st : EvaluatorSession) (msg : Round3)
+    (hA : P.crypto.ofPt ⟨st.ax, st.ay⟩ = none) : round4 P st msg = .error := by
   unfold round4
-  rw [if_neg (by rw [hs]; decide), if_neg (by simp [hsid])]
-  unfold decryptCO
-  simp only [hs, hb, hc, hA]
-  simp [nBits]
+  split
+  · rfl
+  · split
+    · rfl
+    · unfold decryptCO
+      simp [hA]
 
 theorem encryptCO_noPanic (K : Crypto G) (st : GarblerSession) (choices : List Point) (wires : Nat → Label × Label)
-    (n : Nat) (h : (K.ofPt ⟨st.ainvx, st.ainvy⟩).isSome) : NoPanic (encryptCO K st choices wires n) := by
+    (n : Nat) : NoPanic (encryptCO K st choices wires n) := by
   unfold encryptCO
   cases K.ofPt ⟨st.ax, st.ay⟩ with
   | none => simp
   | some A =>
     simp only
-    apply NoPanic.ite; · simp
-    cases choices with
-    | nil => simp
-    | cons p0 rest =>
+    cases K.ofPt ⟨st.ainvx, st.ainvy⟩ with
+    | none => simp
+    | some I =>
       simp only
-      cases K.ofPt p0 with
+      apply NoPanic.ite; · simp
+      cases List.mapM K.ofPt choices with
       | none => simp
-      | some _ =>
+      | some pts =>
         simp only
-        cases hI : K.ofPt ⟨st.ainvx, st.ainvy⟩ with
-        | none => rw [hI] at h; simp at h
-        | some I =>
-          simp only
-          cases List.mapM K.ofPt (p0 :: rest) with
-          | none => simp
-          | some pts =>
-            simp only
-            cases Co.encrypt K.Γ (fun _ => true) K.kdf { a := st.scalar, A := A, AaInv := I } n
-                (fun i => pts.getD i A) wires with
-            | none => simp
-            | some cts => simp
+        cases Co.encrypt K.Γ (fun _ => true) K.kdf { a := st.scalar, A := A, AaInv := I } n
+            (fun i => pts.getD i A) wires with
+        | none => simp
+        | some cts => simp
 
-/-- `GarblerRound3` never crashes when the stored `A^{-a}` is a curve point. -/
+/-- A stored `A^{-a}` that is not on the curve is an error of `EncryptCOCiphertexts`. -/
+theorem encryptCO_offcurve_error (K : Crypto G) (st : GarblerSession) (choices : List Point)
+    (wires : Nat → Label × Label) (n : Nat) (hI : K.ofPt ⟨st.ainvx, st.ainvy⟩ = none) :
+    encryptCO K st choices wires n = .error := by
+  unfold encryptCO
+  cases K.ofPt ⟨st.ax, st.ay⟩ with
+  | none => rfl
+  | some A => simp [hI]
+
+/-- `GarblerRound3` never crashes, whatever state and message it is given. -/
 theorem round3_noPanic (P : Params G) (st : GarblerSession) (a : Bytes) (req : Round2) (key : Bytes)
-    (r0 : Label) (inl : Nat → Label) (h : (P.crypto.ofPt ⟨st.ainvx, st.ainvy⟩).isSome) :
-    NoPanic (round3 P st a req key r0 inl) := by
+    (r0 : Label) (inl : Nat → Label) : NoPanic (round3 P st a req key r0 inl) := by
   unfold round3
   apply NoPanic.ite; · simp
   simp only
   apply NoPanic.ite; · simp
   have := encryptCO_noPanic P.crypto st req.choices
     (fun i => (((P.circ.garble (P.hashOf key) (setS r0) inl).wires.get (nBits + i)).l0,
-               ((P.circ.garble (P.hashOf key) (setS r0) inl).wires.get (nBits + i)).l1)) nBits h
+               ((P.circ.garble (P.hashOf key) (setS r0) inl).wires.get (nBits + i)).l1)) nBits
   cases he : encryptCO P.crypto st req.choices
     (fun i => (((P.circ.garble (P.hashOf key) (setS r0) inl).wires.get (nBits + i)).l0,
                ((P.circ.garble (P.hashOf key) (setS r0) inl).wires.get (nBits + i)).l1)) nBits with
@@ -150,28 +144,15 @@ theorem round3_noPanic (P : Params G) (st : GarblerSession) (a : Bytes) (req : R
   | error => simp
   | ok cts => simp
 
-/-- ... and it DOES crash on a state whose `A^{-a}` is not on the curve while `A`
-and the first choice point are. -/
-theorem round3_panics (P : Params G) (st : GarblerSession) (a : Bytes) (req : Round2) (key : Bytes)
-    (r0 : Label) (inl : Nat → Label) (p0 : Point) (rest : List Point)
-    (hsid : req.sid = st.sid) (ha : a.length = 32) (hch : req.choices = p0 :: rest) (hn : req.choices.length = nBits)
-    (hA : (P.crypto.ofPt ⟨st.ax, st.ay⟩).isSome) (hp0 : (P.crypto.ofPt p0).isSome)
-    (hI : P.crypto.ofPt ⟨st.ainvx, st.ainvy⟩ = none) : round3 P st a req key r0 inl = .panic := by
-  unfold round3
-  rw [if_neg (by simp [hsid])]
+theorem round2_noPanic (P : Params G) (msg : Round1) (b : Bytes) (scalars : List Nat) :
+    NoPanic (round2 P msg b scalars) := by
+  unfold round2
   simp only
-  rw [if_neg (by rw [bytesToBits_length, ha]; decide)]
-  unfold encryptCO
-  cases hA' : P.crypto.ofPt ⟨st.ax, st.ay⟩ with
-  | none => rw [hA'] at hA; simp at hA
-  | some A =>
-    simp only
-    rw [if_neg (by simp [hn])]
-    rw [hch]
-    simp only
-    cases hp : P.crypto.ofPt p0 with
-    | none => rw [hp] at hp0; simp at hp0
-    | some q => simp only [hI]
+  apply NoPanic.ite; · simp
+  apply NoPanic.ite; · simp
+  cases P.crypto.ofPt ⟨msg.ax, msg.ay⟩ with
+  | none => simp
+  | some A => simp
 
 /-! ## resumption through bytes -/
 
@@ -183,8 +164,7 @@ theorem round3B_eq (P : Params G) (hc : P.curve.WF) (st : GarblerSession) (hst :
     (h2 : encodeRound2 P.curve req = .ok r2b) (a key : Bytes) (r0 : Label) (inl : Nat → Label) :
     round3B P gsb a r2b key r0 inl = (round3 P st a req key r0 inl >>= encodeRound3 (countsOf P.circ)) := by
   unfold round3B
-  have hd := decodeGarblerSession_encode P.curve hc st hst gsb [] hg
-  rw [List.append_nil] at hd
+  have hd := decodeGarblerSession_encode P.curve hc st hst gsb hg
   rw [hd, decodeRound2_encode P.curve hc req hreq r2b h2]
   simp only [Res.ok_bind]
 
@@ -193,8 +173,7 @@ theorem round4B_eq (P : Params G) (hc : P.curve.WF) (st : EvaluatorSession) (hst
     (hmsg : msg.WF (countsOf P.circ)) (esb r3b : Bytes) (he : encodeEvaluatorSession P.curve st = .ok esb)
     (h3 : encodeRound3 (countsOf P.circ) msg = .ok r3b) : round4B P esb r3b = round4 P st msg := by
   unfold round4B
-  have hd := decodeEvaluatorSession_encode P.curve hc st hst esb [] he
-  rw [List.append_nil] at hd
+  have hd := decodeEvaluatorSession_encode P.curve hc st hst esb he
   rw [hd, decodeRound3_encode _ msg hmsg r3b h3]
   simp only [Res.ok_bind]
 
@@ -204,8 +183,7 @@ theorem round2B_eq (P : Params G) (hc : P.curve.WF) (msg : Round1) (hmsg : msg.W
     round2B P r1b b scalars = (round2 P msg b scalars >>= fun r =>
       encodeRound2 P.curve r.1 >>= fun r2b => encodeEvaluatorSession P.curve r.2 >>= fun esb => pure (r2b, esb)) := by
   unfold round2B
-  have hd := decodeRound1_encode P.curve hc msg hmsg r1b [] h1
-  rw [List.append_nil] at hd
+  have hd := decodeRound1_encode P.curve hc msg hmsg r1b h1
   rw [hd]
   simp only [Res.ok_bind]
 
@@ -233,29 +211,22 @@ theorem round3_WF (P : Params G) (st : GarblerSession) (a : Bytes) (req : Round2
           · cases hcts
           · split at hcts
             · cases hcts
-            · rename_i hlen
-              split at hcts
-              · rename_i hnil
-                rw [hnil] at hlen
-                simp [nBits] at hlen
+            · split at hcts
+              · cases hcts
               · split at hcts
                 · cases hcts
                 · split at hcts
+                  · rename_i cts' henc
+                    simp only [Res.ok.injEq] at hcts
+                    rw [← hcts]
+                    unfold Co.encrypt at henc
+                    split at henc
+                    · cases henc
+                    · split at henc
+                      · cases henc
+                      · simp only [Option.some.injEq] at henc
+                        rw [← henc]; simp
                   · cases hcts
-                  · split at hcts
-                    · cases hcts
-                    · split at hcts
-                      · rename_i cts' henc
-                        simp only [Res.ok.injEq] at hcts
-                        rw [← hcts]
-                        unfold Co.encrypt at henc
-                        split at henc
-                        · cases henc
-                        · split at henc
-                          · cases henc
-                          · simp only [Option.some.injEq] at henc
-                            rw [← henc]; simp
-                      · cases hcts
       · cases h
       · cases h
 
